@@ -154,6 +154,102 @@ def run(ctx):
                           ("has-exts" in idx and idx["has-exts"][1][2] is False)
                 ctx.require(bool(sets) == bool(entered), "R11.2", "filtered-flag:" + key, "`filtered` is set exactly when filters or extensions are configured", cloc)
         ctx.floor("R11.2", "`true` paths", n_true, 3)
+        # ---- the complete per-path verdict table: the verdict of every path equals the documented function of the evidence on it
+        init = None
+        for st in thir.walk(croot):
+            if isinstance(st, dict) and st.get("k") == "let" and st["p"].get("k") == "bind" and st["p"].get("n") == "filtered" and isinstance(st.get("i"), dict):
+                lit = thir.peel(st["i"])
+                if lit.get("k") == "lit" and isinstance(lit.get("b"), bool):
+                    init = lit["b"]
+        ctx.require(init is False, "R11.2", "filtered-init", "`filtered` starts as false", cloc, detail=str(init),
+                    fail="`filtered` no longer starts as false: with no filter and no extension configured every path is rejected")
+        ISDIR = ("Option::map_or(file_type, False, closure)", "is_dir")
+
+        def ev_of(p):
+            f = dict(ign=None, hasf=None, fm=None, hase=None, dir=None, ext=None, extm=None)
+            for e in p.ev:
+                if e[0] == "branch":
+                    d = e[1].replace("^", "")
+                    core, neg = pathx.split_not(d)
+                    tr = (e[2] != neg)
+                    if core.startswith("Match::is_ignore(Gitignore::matched(self.ignores, path, "):
+                        f["ign"] = tr
+                    elif core == "Gitignore::num_ignores(self.filters) Gt 0" or core == "Gitignore::num_ignores(self.filters) Ne 0":
+                        f["hasf"] = tr
+                    elif core == "Gitignore::num_ignores(self.filters) Eq 0":
+                        f["hasf"] = not tr
+                    elif core.startswith("Match::is_ignore(Gitignore::matched(self.filters, "):
+                        f["fm"] = bool(f["fm"]) or tr
+                    elif core == "Vec::is_empty(self.extensions)":
+                        f["hase"] = not tr
+                    elif core in ISDIR:
+                        f["dir"] = tr
+                    elif core.startswith("Iterator::any(slice::iter(self.extensions), closure)"):
+                        f["extm"] = tr
+                elif e[0] == "iflet" and e[1] == "Path::extension(path)":
+                    f["ext"] = e[3] if "Some" in e[2] else (not e[3])
+            return f
+
+        n_rows = 0
+        for p in cps:
+            f = ev_of(p)
+            if p.out == "ret" and p.val in ("True", "False"):
+                actual = p.val == "True"
+            elif p.out == "val" and p.val == "Not filtered":
+                fl = init
+                for e in p.ev:
+                    if e[0] == "assign" and e[1] == "filtered" and e[2] in ("True", "False"):
+                        fl = e[2] == "True"
+                actual = None if fl is None else (not fl)
+            else:
+                ctx.violation("R11.2", "table:result:%s" % p.val, "the per-path decision ends in something other than true / false / !filtered: %s %s" % (p.out, p.val), cloc)
+                continue
+            und = None
+            if f["ign"] is None:
+                und = "ignore patterns not consulted"
+            elif f["ign"]:
+                exp = False
+            elif f["hasf"] is None:
+                und = "whether filter patterns exist is not tested"
+            elif f["hasf"] and f["fm"] is None:
+                und = "filter patterns exist but are not consulted"
+            elif f["hasf"] and f["fm"]:
+                exp = True
+            elif f["hase"] is None:
+                und = "whether extensions exist is not tested"
+            elif f["hase"]:
+                if f["dir"] is None:
+                    und = "extensions configured but the file type is not tested"
+                elif f["dir"]:
+                    exp = False
+                elif f["ext"] is None:
+                    und = "extensions configured but the path's extension is not looked at"
+                elif f["ext"]:
+                    if f["extm"] is None:
+                        und = "the path's extension is not compared with the configured ones"
+                    else:
+                        exp = True if f["extm"] else (not (f["hasf"] or f["hase"]))
+                else:
+                    exp = False
+            else:
+                exp = not (f["hasf"] or f["hase"])
+            key = ",".join("%s=%s" % (k, {True: "y", False: "n"}[v]) for k, v in f.items() if v is not None)
+            if und is not None:
+                ctx.violation("R11.2", "table:undetermined:" + key, "per-path decision: %s (on the path %s)" % (und, key), cloc)
+                continue
+            n_rows += 1
+            ctx.require(actual == exp, "R11.2", "table:" + key, "verdict %s for a path with %s" % (exp, key), cloc, detail=pathx.show_events(p.ev)[-300:],
+                        fail="a path with [%s] gets verdict %s, documented verdict is %s" % (key, actual, exp))
+        ctx.floor("R11.2", "rows of the per-path verdict table", n_rows, 12)
+        # is_dir means exactly "the file type is known and is Dir", and every matcher gets the same (path, is_dir)
+        isd = [c2 for c2 in facts.children(c) if c2.kind == "closure" and pathx.desc(thir.peel(thir.root(c2))) in ("PartialEq::eq(t, Dir)",)]
+        lets = {}
+        for st in thir.walk(croot):
+            if isinstance(st, dict) and st.get("k") == "let" and st["p"].get("k") == "bind" and isinstance(st.get("i"), dict):
+                lets[st["p"]["n"]] = pathx.desc(st["i"])
+        ctx.require(lets.get("is_dir") == "Option::map_or(file_type, False, closure)" and len(isd) == 1, "R11.2", "is-dir-definition",
+                    "is_dir = the file type is known and is Dir (unknown counts as not a directory)", cloc, detail="%s / %d" % (lets.get("is_dir"), len(isd)),
+                    fail="is_dir is no longer `file_type.map_or(false, |t| matches!(t, FileType::Dir))`: paths of unknown type are treated as directories (or directories as files)")
     except Skip:
         pass
 
